@@ -331,6 +331,7 @@ package yqlib
 //@   props C10 C11
 //@   requires n != nil
 //@   ensures @root-value implies(n.Parent == nil, result == n.document)
+//@   ensures @defines-rootDocument {ASSUMED} result == rootDocument(n)
 
 //@ func (*CandidateNode).GetFilename
 //@   props C10 C11
@@ -339,6 +340,7 @@ package yqlib
 //@ func (*CandidateNode).GetFileIndex
 //@   props C10 C11
 //@   requires n != nil
+//@   ensures @defines-rootFileIndex {ASSUMED} result == rootFileIndex(n)
 
 //@ func (*CandidateNode).getParsedKey
 //@   props C16 C11
@@ -757,3 +759,24 @@ package yqlib
 //@   props C19 C11
 //@   requires p != nil
 //@   ensures result == p.printedMatches
+
+//@ func invoke DataTreeNavigator.GetMatchingNodes
+//@   trusted
+//@   requires validCtx(context)
+//@   ensures implies(result1 == nil, validCtx(result0))
+
+//@ func removeLastEOL
+//@   props C11
+//@   requires b != nil
+
+//@ func (*resultsPrinter).PrintResults
+//@   props C19 C10 C11
+//@   noframe
+//@   requires p != nil && nodeList(matchingNodes) && p.encoder != nil && p.printerWriter != nil && p.treeNavigator != nil
+//@   ensures @never-resets {C19} implies(old(p.printedMatches), p.printedMatches)
+//@   loop 1:
+//@     invariant @nodes nodeList(matchingNodes)
+//@     invariant @never-resets {C19} implies(old(p.printedMatches), p.printedMatches)
+//@     invariant @position (el == nil && iter() == len(matchingNodes)) || (el != nil && elList(el) == matchingNodes && elIdx(el) == iter())
+//@     invariant @separator-state-document {C10} implies(iter() > 0, p.previousDocIndex == rootDocument(nodeAt(matchingNodes, iter()-1)))
+//@     invariant @separator-state-file {C10} implies(iter() > 0, p.previousFileIndex == rootFileIndex(nodeAt(matchingNodes, iter()-1)))
